@@ -1,6 +1,7 @@
 package bits
 
 import (
+	"go/constant"
 	"fmt"
 	"go/types"
 	"strings"
@@ -160,6 +161,21 @@ func (e *Engine) builtin(fr *frame, st *State, x *ssa.Call, b *ssa.Builtin) Valu
 					off = dst.Off.add(affConst(i), 1)
 				}
 				st.writeByte(dst.Buf, off, c)
+			}
+			return &IntV{B: constBV(uint64(n), 64), A: affConst(n)}
+		}
+		// constant string source: its octets, as far as the destination is known to hold them
+		if cst, isC := args[1].(*ssa.Const); isC && cst.Value != nil && cst.Value.Kind() == constant.String && dst.Off != nil && dst.LenOK {
+			sv := constant.StringVal(cst.Value)
+			n := int64(len(sv))
+			if dst.LenC < n {
+				n = dst.LenC
+			}
+			for i := int64(0); i < n; i++ {
+				bv := constBV(uint64(sv[i]), 8)
+				var c [8]Bit
+				copy(c[:], bv)
+				st.writeByte(dst.Buf, dst.Off.add(affConst(i), 1), c)
 			}
 			return &IntV{B: constBV(uint64(n), 64), A: affConst(n)}
 		}
